@@ -397,6 +397,12 @@ func (fr *Frame) loopHead(li *loopInfo, st *State, reach *Term, preds []*ssa.Bas
 		}
 		c.havoc(st, k)
 	}
+	// implicit loop invariant: the function's heap frame (checked again at every back edge)
+	if c.frameOn {
+		if fc, _ := c.frameCond(st, ks); fc != nil {
+			c.sc.assert(tImp(reach, fc))
+		}
+	}
 	// facts about never-reassigned package variables (error sentinels, constant slices) hold in every state
 	for _, k := range ks {
 		if strings.HasPrefix(k, "P:") || strings.Contains(k, "RFC6749Error") {
@@ -446,6 +452,16 @@ func (fr *Frame) backEdgeCheck(p, h *ssa.BasicBlock, st *State, guard *Term) {
 				c.loopW[id][k] = true
 				c.loopWNew = true
 			}
+		}
+	}
+	if c.frameOn {
+		var ks []string
+		for k := range c.loopW[id] {
+			ks = append(ks, k)
+		}
+		if fc, names := c.frameCond(st, ks); fc != nil {
+			c.addObl(fr, &Obligation{Kind: "frame-heap", Site: fmt.Sprintf("loop#%d.step(b%d)", li.ordinal, p.Index),
+				Clause: "loop body keeps the function's heap frame (written: " + strings.Join(names, ", ") + ")", Guard: guard, Goal: fc})
 		}
 	}
 	over := map[ssa.Value]*Val{}
